@@ -26,7 +26,8 @@ EXPECT = ("is-superselector(A,B)=true only if every element context matched by B
 # ---------------------------------------------------------------------------------------------
 
 def q(text):
-    return '"' + text + '"'
+    """a Sass string literal holding `text` (selectors of the alphabet contain at most one kind of quote)"""
+    return ("'" + text + "'") if '"' in text else ('"' + text + '"')
 
 
 def _values(css):
@@ -136,18 +137,55 @@ def dec(ans):
 # ---------------------------------------------------------------------------------------------
 
 CORPUS_SUPER = [
-    # S1: components skipped after a child / sibling combinator (wrong `true`)
+    # S1 (fixed, 75edc67): components were skipped after a child / sibling combinator (wrong `true`); regression cases
     ("a > b c", "a > x > b c"), ("a > b c", "a > x b c"), ("a + b c", "a + x + b c"), ("a ~ b c", "a + x > b c"),
+    ("a > b", "a > x b"), ("a + b", "a + x b"), ("a ~ b", "a ~ x b"), (".a > .c", ".a > .b .c"), ("x > z", "x > y z"),
+    (":not(.a)", ":not(.a.b)"), (":not(.a.b)", ":not(.a)"), (":not(.a, .b)", ":not(.a, .b)"), (":not(.a, .b)", ":not(.a)"),
+    (":not(.a)", ":not(.a, .b)"), (":not(a.x, .y)", ":not(a.x, .y)"), (":not(.x .y)", ":not(.y)"), (":not(.y)", ":not(.x .y)"),
     # conservative answers that must stay sound
     ("a > b", "x a > b"), ("a b", "a > x b"), ("a ~ b", "a + b"), ("a", "a.x"), (":is(a, .x)", "a"),
     (":not(.x)", ":not(.x, .y)"), ("a", "a::before"), (".x", ".x:after"),
 ]
 
 
+def gen_not_pair(rng):
+    """`:not(X)` against `:not(Y)` (also :is/:where/:matches) with comma lists and nested compounds; Y is X with arguments
+    added / dropped / strengthened / weakened, so that both directions of the comparison are exercised."""
+    k = rng.choice(["not", "not", "not", "is", "where", "matches"])
+    args = [[G.gen_compound(rng, 0, False, False, min_simples=rng.choice([1, 1, 2]))] for _ in range(rng.choice([1, 1, 2, 3]))]
+    if rng.random() < 0.2:
+        args[0] = G.gen_complex(rng, 2, 0, False, False)
+    other = [list(x) for x in args]
+    op = rng.random()
+    if op < 0.3:
+        i = rng.randrange(len(other))
+        other[i] = G.strengthen(rng, other[i])
+    elif op < 0.5 and len(other) > 1:
+        other.pop(rng.randrange(len(other)))
+    elif op < 0.7:
+        other.append([G.gen_compound(rng, 0, False, False)])
+    elif op < 0.85:
+        i = rng.randrange(len(other))
+        c = [s for s in other[i][-1]]
+        if len(c) > 1:
+            c.pop(rng.randrange(len(c)))
+            other[i] = other[i][:-1] + [c]
+    host = [s for s in G.gen_compound(rng, 0, False, False) if s[0] in ("type", "cls")] if rng.random() < 0.4 else []
+    a = [G._order(host + [("sel", k, args)])]
+    b = [G._order(host + [("sel", k, other)])]
+    if rng.random() < 0.3:
+        pre = [G.gen_compound(rng, 0, False, False), rng.choice(G.COMBS)]
+        a, b = pre + a, pre + b
+    return ([a], [b]) if rng.random() < 0.5 else ([b], [a])
+
+
 def gen_super_pairs(rng, n):
     pairs = []
     for _ in range(n):
         r = rng.random()
+        if r < 0.12:
+            pairs.append(gen_not_pair(rng))
+            continue
         if r < 0.45:
             a = G.gen_complex(rng)
             b = G.strengthen(rng, a)
@@ -272,13 +310,13 @@ def run(tier, seed):
             gv = g[1] == "true"
             if record:
                 ck.hist("super:" + ("true" if gv else "false"))
-            if not m_af.startswith("ok"):
+            if not m_spec.startswith("ok"):
                 if record:
                     ck.cov["unsupported_dropped"] += 1
                     ck.hist("super:model-unsupported")
             else:
-                mv = m_af.split(" ")[1] == "1"
-                nosel = m_af.split(" ")[2] == "1"
+                mv = m_spec.split(" ")[1] == "1"      # the code as it stands = model with asFound := false
+                nosel = m_spec.split(" ")[2] == "1"
                 if record:
                     ck.hist("super:left-without-selector-pseudo" if nosel else "super:left-with-selector-pseudo")
                 if mv != gv and record:
@@ -292,20 +330,17 @@ def run(tier, seed):
                         ck.hist("super:true-checked-on-contexts", int(nctx))
                 elif verdict.startswith("ok fails"):
                     ctx = dec(verdict.replace("ok fails", "ok"))
-                    spec_false = m_spec.startswith("ok 0")
-                    af_true = m_af.startswith("ok 1")
-                    tags = ["S1"] if (spec_false and af_true) else []
                     bad.append((k, case, {"impl_observation": "true", "refuting_context": ctx,
-                                          "model_as_found": m_af, "model_specified": m_spec}, tags))
+                                          "model_now": m_spec, "model_pinned_tree_walk": m_af}, []))
                     nontrivial = True
                 elif record:
                     ck.hist("super:true-not-judged(" + verdict.split(" ")[0] + ")")
-            if a == b and not gv and m_af.startswith("ok"):
+            if a == b and not gv and m_spec.startswith("ok"):
                 bad.append((k, case, {"impl_observation": "false", "why": "not reflexive"}, ["refl"]))
             if record:
                 ck.count(("super", a, b), nontrivial)
                 if k % 397 == 0:
-                    ck.sample({"case": case, "impl": g[1], "model_as_found": m_af, "model_specified": m_spec, "P": verdict[:60]})
+                    ck.sample({"case": case, "impl": g[1], "model_now": m_spec, "model_pinned_tree_walk": m_af, "P": verdict[:60]})
         return bad
 
     bad = super_round(pairs)
@@ -549,6 +584,11 @@ def run(tier, seed):
     lap('before parse / print, crash')
     # ---------------------------------------------------------------- parse / print, crash ---
     pcases = [G.list_text(G.gen_list(rng)) for _ in range(300 if not big else 1500)]
+    # attribute selectors with quoted values and `i`/`s` modifiers (attribute.rs Display)
+    attrs = ['[t="v w"]', '[t="v w" i]', '[t="v" i]', '[t=v s]', '[t=v i]', "[t='v w' s]", '[t="1x"]', '[t="1x" i]', '[t=v]', '[t="v"]',
+             '[a="b c" i]', '[t="--x"]', '[t="--x" i]']
+    for at in attrs:
+        pcases += [at, "a" + at, ".x" + at + ":hover", "a > b" + at, f":not({at})", f"{at}, a"]
     impl = eval_exprs(pool, [f"selector-parse({q(a)})" for a in pcases])
     lines = []
     for k, a in enumerate(pcases):
@@ -618,7 +658,7 @@ def run(tier, seed):
         key = ",".join(tags) or "untagged"
         ck.cov["failing_cases_by_tag"][key] = ck.cov["failing_cases_by_tag"].get(key, 0) + 1
     if ck.cov["model_disagreements"] and not reported:
-        ck.unproved("correspondence-broken", {"correspondence": "Grass.Selector (as-found switches on) vs grass selector functions",
+        ck.unproved("correspondence-broken", {"correspondence": "Grass.Selector (asFound := false, the code as it stands) vs grass selector functions",
                                               "cases": ck.disagreements})
     return ck.finish()
 
